@@ -56,7 +56,9 @@ func (fi *FuncInfo) guardsUpTo(n ast.Node, top ast.Node) []Cond {
 			cs = fi.siblingConds(p.List, child)
 		case *ast.CaseClause:
 			cs = fi.siblingConds(p.Body, child)
-			cs = append(fi.caseConds(p), cs...)
+			if p != top {
+				cs = append(fi.caseConds(p), cs...)
+			}
 		case *ast.CommClause:
 			cs = fi.siblingConds(p.Body, child)
 		case *ast.ForStmt:
